@@ -123,4 +123,62 @@ func ZZC04() {
 	}
 }
 
-func init() { ZZHarnesses["ZZC04"] = ZZC04 }
+// ZZC04Items: item-count rules on arrays of 1..3 plain items, at the root or nested in an
+// object, combined with nullable / optional; symbolic 1-digit parameters.
+func ZZC04Items() {
+	n := v.Choose(1, 3)
+	arr := &gen.Ex{Kind: gen.KArr}
+	for i := 0; i < n; i++ {
+		arr.Kids = append(arr.Kids, &gen.Ex{Kind: gen.KInt, Lit: bs("7")})
+	}
+	obeys := true
+	which := v.Choose(0, 2)
+	if which != 1 {
+		p := uintLit()
+		arr.Rules = append(arr.Rules, gen.Rule{Name: "minItems", Value: p})
+		obeys = obeys && n >= int(p[0]-'0')
+	}
+	if which != 0 {
+		p := uintLit()
+		arr.Rules = append(arr.Rules, gen.Rule{Name: "maxItems", Value: p})
+		obeys = obeys && n <= int(p[0]-'0')
+	}
+	switch v.Choose(0, 2) {
+	case 1:
+		arr.Nullable = 1
+	case 2:
+		arr.Nullable = 2
+	}
+	root := arr
+	if v.Choose(0, 1) == 1 {
+		if v.Choose(0, 1) == 1 {
+			arr.Optional = 1
+		}
+		root = &gen.Ex{Kind: gen.KObj, Keys: [][]byte{bs("k"), bs("z")}, Kids: []*gen.Ex{arr, {Kind: gen.KStr, Lit: bs(`"s"`)}}}
+	}
+	st := gen.Schema(root)
+	ex := gen.JSON(gen.ExampleDoc(root))
+	v.Observe("schema", st)
+	s := jschema.New("s", st)
+	cerr := s.Check()
+	if cerr == nil {
+		v.Reach("C04/items-accepted")
+		v.Assert(obeys, "C04/check-accepts-example-violating-its-rule")
+		v.Assert(s.Validate(json.New("d", ex)) == nil, "C04/accepted-schema-rejects-its-own-example")
+		return
+	}
+	// min > max is rejected for another reason; only judge the case where the bounds are ordered
+	if !obeys {
+		v.Reach("C04/items-rejected")
+		pe, ok := cerr.(jlib.ParsingError)
+		v.Assert(ok, "C04/error-without-position")
+		if ok && len(arr.Rules) == 1 {
+			v.Assert(int(pe.Position()) == arr.Off, "C04/error-position-is-not-the-offending-value")
+		}
+	}
+}
+
+func init() {
+	ZZHarnesses["ZZC04"] = ZZC04
+	ZZHarnesses["ZZC04Items"] = ZZC04Items
+}
